@@ -39,6 +39,8 @@ WRAPPERS = {
     "let3-alike": "let\n  u = 1;\n  n = 0;\nin\nlet\n  v = 2;\nin\nlet\n  v = 2;\nin\nSET\n",
     # an attrpath family with several members inside a let layer
     "let-family": "let\n  z.q = 2;\n  z.r = 3;\n  v = 1;\nin\nSET\n",
+    # a lambda with plain identifier parameters whose body opens on the colon line (overlay style)
+    "lambda-colon-line": "final: prev: SET\n",
     "let-twins": "let\n  x = 0;\n  lib.v = 1;\n  v = 1;\n  w.v = 1;\nin\nSET\n",
 }
 CONTENTS = {
@@ -64,6 +66,8 @@ CONTENTS = {
     "nested-attrpath": "{\n  a = 1;\n  m = {\n    x.y = 1;\n    k = 2;\n  };\n}",
     # the same family spelled with blanks around the dots (legal Nix for the same paths)
     "attrpath-spaced": "{\n  a = 1;\n  m . x = 1;\n  m .y = 2;\n}",
+    # ... two explicit levels down
+    "deep-nested-attrpath": "{\n  a = 1;\n  m = {\n    n = {\n      x.y = 1;\n      x.w = 3;\n      k = 2;\n    };\n  };\n}",
     # ... whose root is called like the set that encloses it (the NixOS `users.users` idiom)
     "same-name-family": "{\n  users = {\n    users.alice.uid = 1000;\n    users.bob.uid = 1001;\n  };\n  k = 1;\n}",
     "twins": "{\n  z = 0;\n  a.enable = true;\n  b.enable = true;\n  enable = true;\n  m.x = 1;\n}",
@@ -75,7 +79,7 @@ PATHS = ["a.enable", "b.enable", "c.enable", "enable", "@lib.v", "@w.v", "a", "b
          "@a", "@@a", "@m.x",
          # later members of deep attrpath families, fresh leaves in them, and the paths a mis-merged tree would answer to
          "m.n.y", "m.y", "m.n.z", "s.n.v.m.b", "s.n.v.m.c", "s.n.v.b", "s.n.w", "@@@u", "s.n.p", "s.h.a",
-         "a.b", "a.x", "s.t.u", "s.k", "s.t", "@lib", "@n", "@@@n", "m.x.y", "m.x.z", "m.k", "users.users.alice.uid", "users.users.bob.uid", "users.users.carol.uid", "users.alice", "@z.r", "@z.s", "@z.q", "@z"]
+         "a.b", "a.x", "s.t.u", "s.k", "s.t", "@lib", "@n", "@@@n", "m.x.y", "m.x.z", "m.k", "users.users.alice.uid", "users.users.bob.uid", "users.users.carol.uid", "users.alice", "@z.r", "@z.s", "@z.q", "@z", "m.n.x.y", "m.n.x.z", "m.n.k", "m.n.x"]
 VALUES = ["2", '"s"', "[ 1 2 ]", "{ k = 1; }", "v", "{", "1 2", ""]
 
 
@@ -88,9 +92,9 @@ def documents(tier):
                 continue
             if c.startswith("twins") and w not in ("bare", "let", "let-twins", "lambda-call", "rec"):
                 continue
-            if (c.startswith("set-and-attrpath") or c in ("nested-attrpath", "attrpath-spaced", "same-name-family")) and w not in ("bare", "lambda", "let"):
+            if (c.startswith("set-and-attrpath") or c in ("nested-attrpath", "attrpath-spaced", "same-name-family", "deep-nested-attrpath")) and w not in ("bare", "lambda", "let"):
                 continue
-            if w in ("let-inherit", "let3-alike", "let-family") and c not in ("flat", "attrpath", "comments", "inline"):
+            if w in ("let-inherit", "let3-alike", "let-family", "lambda-colon-line") and c not in ("flat", "attrpath", "comments", "inline"):
                 continue
             if c in ("attrpath-deep4", "attrpath-interleaved") and w not in ("bare", "let", "lambda-call", "rec", "lambda"):
                 continue
